@@ -11,9 +11,9 @@ import (
 )
 
 func init() {
-	register(&Rule{Name: "LIVE-FIELD", Floor: 60, Run: ruleLiveField,
+	register(&Rule{Name: "LIVE-FIELD", Floor: 30, Run: ruleLiveField,
 		Doc: "every field of every struct a configuration document is decoded into is consumed somewhere (read in SSA, read through FieldByName with a constant name, or covered by the reflect-all loop of the extension parser); the optional flag of a profile subject attribute is used as a branch condition of the subject validator"})
-	register(&Rule{Name: "PROV-CRIT", Floor: 22, Run: ruleProvCrit,
+	register(&Rule{Name: "PROV-CRIT", Floor: 11, Run: ruleProvCrit,
 		Doc: "in every constructor func(critical bool, …) returning a pkix.Extension the Critical field of every returned value comes from that parameter, and every v1 Builder passes its own Critical field"})
 	register(&Rule{Name: "LIVE-DEP", Floor: 1, Run: ruleLiveDep,
 		Doc: "the BitLength of the keyUsage BIT STRING depends on the flags (a constant length cannot be a minimal named bit list)"})
